@@ -115,6 +115,49 @@ def job_nfa_accepts(job, n, k, maxlen, eps, partial):
     return job.solve()
 
 
+def job_nfa_history(job, n, k, maxlen, eps):
+    """the acceptance test must answer for the automaton as it is *now*: query, modify the same NFA
+    object in place (add one transition, toggle one accepting state), query again"""
+    from gambatools.nfa_algorithms import nfa_accepts_word
+    from .oracles import NfaView
+    job.functions('nfa_algorithms', ['nfa_accepts_word', '_nfa_cache', 'epsilon_closure'])
+    N, names, syms = c.sym_nfa(n, k, eps=eps, partial=False)
+    view0 = NfaView(N, names, syms)
+    job.inputs['N'] = N
+    job.decoders['N'] = view0.to_json
+    d = E.dag
+    words = c.words_upto(syms, maxlen)
+    first = {w: nfa_accepts_word(N, w) for w in words}
+    # in-place modification through the public attributes
+    p = c.choice(names, 'mut_p')
+    lab = c.choice(syms + [eps], 'mut_a')
+    q = c.choice(names, 'mut_q')
+    f = c.choice(names, 'mut_f')
+    L.CALLM(L.GETITEM(N.delta, (p, lab)), 'add', q)
+    addf = E.fresh('mut_addF')
+    for b in L.SPLIT(L.SB(addf)):
+        with b:
+            if b.which:
+                L.CALLM(N.F, 'add', f)
+            else:
+                L.CALLM(N.F, 'discard', f)
+    view1 = NfaView(N, names, syms)
+    second = {w: nfa_accepts_word(N, w) for w in words}
+    job.lifted()
+    mut = {'p': lambda mv: c.conc(p, mv), 'a': lambda mv: c.conc(lab, mv), 'q': lambda mv: c.conc(q, mv),
+           'f': lambda mv: c.conc(f, mv), 'addF': lambda mv: mv(addf)}
+    job.decoders['mutation'] = lambda mv: {k_: v(mv) for k_, v in mut.items()}
+    job.inputs['mutation'] = None
+    for w in words:
+        rp = ('nfa_history', {'N': view0.to_json, 'words': words, 'word': w, **mut})
+        job.oblige('first query %r == reference' % w, d.iff(E.lit(first[w]), view0.accepts(w)) ^ 1, replay=rp)
+        job.oblige('query %r after in-place modification == reference of the modified NFA' % w,
+                   d.iff(E.lit(second[w]), view1.accepts(w)) ^ 1, replay=rp)
+    job.failures_as_obligations(replay=('nfa_history', {'N': view0.to_json, 'words': words, 'word': words[-1], **mut}))
+    job.must_reach('modification changes the verdict on some word', d.any_(d.iff(view0.accepts(w), view1.accepts(w)) ^ 1 for w in words))
+    return job.solve()
+
+
 def jobs(tier):
     J = []
 
@@ -129,7 +172,9 @@ def jobs(tier):
         add('nfa_accepts_n3_k2', job_nfa_accepts, n=3, k=2, maxlen=3, eps='', partial=False)
         add('nfa_accepts_n2_k2_partial_us', job_nfa_accepts, n=2, k=2, maxlen=3, eps='_', partial=True)
         add('nfa_accepts_n2_k1_eps_unicode', job_nfa_accepts, n=2, k=1, maxlen=3, eps='ε', partial=True)
+        add('nfa_history_n2_k1', job_nfa_history, n=2, k=1, maxlen=3, eps='')
     else:
+        add('nfa_history_n3_k2', job_nfa_history, n=3, k=2, maxlen=3, eps='_')
         add('dfa_accepts_n1_k1', job_dfa_accepts, n=1, k=1, maxlen=4)
         add('dfa_accepts_n2_k0', job_dfa_accepts, n=2, k=0, maxlen=2)
         add('dfa_accepts_n4_k2', job_dfa_accepts, n=4, k=2, maxlen=6)
@@ -176,4 +221,18 @@ def _replay_closure(rp):
     return (got != exp) or (arg != before), {'library': sorted(got), 'reference': sorted(exp), 'argument_after': sorted(arg) if isinstance(arg, set) else arg}
 
 
-REPLAY = {'dfa_accepts': _replay_dfa_accepts, 'nfa_accepts': _replay_nfa_accepts, 'closure': _replay_closure}
+def _replay_nfa_history(rp):
+    from gambatools.nfa_algorithms import nfa_accepts_word
+    Nn = nat.mk_nfa(rp['N'])
+    js1 = dict(rp['N'])
+    first = {w: nfa_accepts_word(Nn, w) for w in rp['words']}
+    Nn.delta[rp['p'], rp['a']].add(rp['q'])
+    (Nn.F.add if rp['addF'] else Nn.F.discard)(rp['f'])
+    js1 = nat.nfa_json_of(Nn)
+    second = {w: nfa_accepts_word(Nn, w) for w in rp['words']}
+    bad1 = {w: first[w] for w in rp['words'] if first[w] != nat.ref_nfa_accepts(rp['N'], w)}
+    bad2 = {w: second[w] for w in rp['words'] if second[w] != nat.ref_nfa_accepts(js1, w)}
+    return bool(bad1 or bad2), {'wrong before modification': bad1, 'wrong after modification': bad2}
+
+
+REPLAY = {'nfa_history': _replay_nfa_history, 'dfa_accepts': _replay_dfa_accepts, 'nfa_accepts': _replay_nfa_accepts, 'closure': _replay_closure}
